@@ -230,6 +230,8 @@ where
 
 struct Ongoing {
     range: Option<BlockRange>,
+    /// Stored headers right below and right above the range at the time it was requested.
+    neighbours: (Option<ExtendedHeader>, Option<ExtendedHeader>),
     task: FusedReusableFuture<(Result<Vec<ExtendedHeader>, P2pError>, Duration)>,
 }
 
@@ -254,6 +256,7 @@ where
             batch_size: args.batch_size,
             ongoing_batch: Ongoing {
                 range: None,
+                neighbours: (None, None),
                 task: FusedReusableFuture::terminated(),
             },
             sampling_window: args.sampling_window,
@@ -534,12 +537,20 @@ where
             }
         }
 
+        // Headers of the batch are verified on insertion against their stored neighbours.
+        // Pruner may remove those while the request is in flight, in which case the batch
+        // would be inserted without being verified against anything. So we keep a copy of
+        // a neighbour now and verify the batch against it when it arrives.
+        let mut neighbours = (None, None);
+
         // make sure we're inside the sampling window before we start
         match self.store.get_by_height(next_batch.end() + 1).await {
             Ok(known_header) => {
                 if !self.in_sampling_window(&known_header) {
                     return Ok(());
                 }
+
+                neighbours.1 = Some(known_header);
             }
             Err(StoreError::NotFound) => {
                 // The header that bounds the batch was already pruned. Pruner never
@@ -554,6 +565,34 @@ where
                 if pruned_ranges.contains(next_batch.end() + 1) {
                     return Ok(());
                 }
+
+                // Nothing is synced above the batch, so it extends the chain towards
+                // the network head and is anchored by the header below it.
+                match self.store.get_by_height(next_batch.start() - 1).await {
+                    Ok(known_header) => neighbours.0 = Some(known_header),
+                    Err(StoreError::NotFound) => {
+                        let pruned_ranges = self.store.get_pruned_ranges().await?;
+
+                        if pruned_ranges.contains(next_batch.start() - 1) {
+                            // The anchor was pruned. Use the network head instead, which was
+                            // verified by HeaderSub, and sync backwards from it.
+                            if let Some(network_head) = self.p2p.get_network_head().await? {
+                                if network_head.height() >= *next_batch.start() {
+                                    if let Err(e) =
+                                        self.store.announce_insert(vec![network_head]).await
+                                    {
+                                        if e.is_fatal() {
+                                            return Err(e.into());
+                                        }
+                                    }
+                                }
+                            }
+
+                            return Ok(());
+                        }
+                    }
+                    Err(e) => return Err(e.into()),
+                }
             }
             Err(e) => return Err(e.into()),
         }
@@ -566,6 +605,7 @@ where
         let p2p = self.p2p.clone();
 
         self.ongoing_batch.range = Some(next_batch.clone());
+        self.ongoing_batch.neighbours = neighbours;
 
         self.ongoing_batch.task.set(async move {
             let now = Instant::now();
@@ -609,6 +649,27 @@ where
                 return Ok(());
             }
         };
+
+        let (below, above) = std::mem::take(&mut self.ongoing_batch.neighbours);
+
+        let verified_against_neighbours = match (headers.first(), headers.last()) {
+            (Some(first), Some(last)) => {
+                below.is_none_or(|below| below.verify_adjacent(first).is_ok())
+                    && above.is_none_or(|above| last.verify_adjacent(&above).is_ok())
+            }
+            _ => true,
+        };
+
+        if !verified_against_neighbours {
+            self.event_pub.send(NodeEvent::FetchingHeadersFailed {
+                from_height,
+                to_height,
+                error: "Headers do not follow the already synced ones".to_owned(),
+                took,
+            });
+
+            return Ok(());
+        }
 
         let pruning_cutoff = Time::now().saturating_sub(self.pruning_window);
 
